@@ -774,3 +774,96 @@ def gen_relay2_ring(rng):
     order = list(range(3))
     rng.shuffle(order)
     return {"comps": permute(comps, order), "end": max(sa, scc) * rng.choice([2, 3, 5])}
+
+
+# ----------------------------------------------------------------------------------------------
+# calendar delays (monitor-only: the Coq model counts integer microseconds)
+# ----------------------------------------------------------------------------------------------
+def has_calendar(case):
+    return any(a[0] == "calfixed" for c in case["comps"] for i in c["inputs"] for a in i["chain"])
+
+
+def cal_shift(t_us, months):
+    """t - relativedelta(months) in microseconds since 2000-01-01 (the oracle is dateutil itself)"""
+    from dateutil.relativedelta import relativedelta
+    from ..fin import T, us_of
+    return us_of(T(t_us) - relativedelta(months=months))
+
+
+def cal_expected_request(case, c, i, t):
+    """the time that reaches the source of input i of component c for a pull at t: every delay adapter of the pulled
+    part answers for max(t - delay, start time of the source)"""
+    comps = case["comps"]
+    inp = comps[c]["inputs"][i]
+    src = comps[inp["src"][0]]
+    init = src["start"] if src["kind"] == "T" else min(x["start"] for x in comps if x["kind"] == "T")
+    for a in inp["chain"]:
+        if a[0] == "fixed":
+            t = max(init, t - a[1])
+        elif a[0] == "calfixed":
+            t = max(init, cal_shift(t, a[1]))
+        elif a[0] == "pass":
+            pass
+        else:
+            return None
+    return t
+
+
+def monitor_calendar(case, obs):
+    """C13 for calendar delays: the shifted time is what is actually requested from the source, and the run does not
+    fail for lack of data"""
+    if obs["phase"] != "run":
+        return f"connect phase failed with {obs['outcome']}"
+    ev = obs["events"]
+    for k, e in enumerate(ev):
+        if e[0] == "P" and k + 1 < len(ev) and ev[k + 1][0] == "S":
+            exp = cal_expected_request(case, e[1], e[2], e[3])
+            if exp is not None and ev[k + 1][3] != exp:
+                return (f"pull of C{e[1]}.i{e[2]} for {e[3]}: the source was asked for {ev[k + 1][3]}, "
+                        f"max(t - delay, start) is {exp}")
+    if obs["outcome"] != "ok":
+        return f"run ended with {obs['outcome']}"
+    return None
+
+
+def gen_calendar_link(rng):
+    """S (daily or finer) >> DelayFixed(relativedelta(months=m)) [>> more adapters] >> T, all starting on day 29-31 of a
+    month, T stepping by days so that it pulls exactly one calendar delay after the start (where adding and subtracting
+    a month are not inverse)."""
+    day0 = rng.choice([28, 29, 30, 59, 89, 90, 364 + 30])  # Jan 29/30/31, Feb 29, Mar 30/31 of 2000, Jan 31 2001
+    start = day0 * DAY
+    months = rng.choice([1, 1, 1, 2, 12])
+    chain = [["calfixed", months]]
+    r = rng.random()
+    if r < 0.25:
+        chain.append(["fixed", rng.choice([1, 2]) * DAY])
+    elif r < 0.5:
+        chain.insert(0, ["fixed", rng.choice([1, 2]) * DAY])
+    elif r < 0.65:
+        chain.insert(rng.randrange(2), ["pass"])
+    comps = [{"kind": "T", "start": start, "steps": [rng.choice([DAY, DAY, DAY // 2])], "initpull": False, "nout": 1, "inputs": []},
+             {"kind": "T", "start": start, "steps": [rng.choice([DAY, DAY, 2 * DAY, 3 * DAY])], "initpull": rng.random() < 0.5,
+              "nout": 0, "inputs": [{"src": [0, 0], "chain": chain}]}]
+    if rng.random() < 0.5:
+        comps.reverse()
+        comps[0]["inputs"][0]["src"] = [1, 0]
+    return {"comps": comps, "end": start + (31 * months + rng.choice([3, 6, 35])) * DAY}
+
+
+def gen_calendar_ring(rng):
+    """ring A -> B -> (C ->) A whose closing link carries a calendar delay of one month (far more than the steps),
+    starting on day 29-31: must run to the end"""
+    day0 = rng.choice([29, 30, 89, 90, 59])
+    start = day0 * DAY
+    n = rng.choice([2, 3])
+    comps = [{"kind": "T", "start": start, "steps": [rng.choice([1, 2, 3]) * DAY], "initpull": False, "nout": 1, "inputs": []}
+             for _ in range(n)]
+    for k in range(n):
+        comps[k]["inputs"].append({"src": [(k - 1) % n, 0], "chain": []})
+    ch = [["calfixed", 1]]
+    if rng.random() < 0.5:
+        ch.append(["fixed", 2 * DAY])
+    comps[0]["inputs"][0]["chain"] = ch
+    order = list(range(n))
+    rng.shuffle(order)
+    return {"comps": permute(comps, order), "end": start + rng.choice([33, 40, 65]) * DAY}
